@@ -5,6 +5,7 @@ from .core import *
 
 REPO = os.environ.get('POLAR_REPO', '/repo')
 Z3_TIMEOUT_MS = int(os.environ.get('PYVC_Z3_TIMEOUT_MS', '20000'))
+z3.set_param('memory_max_size', int(os.environ.get('PYVC_Z3_MEM_MB', '3000')))
 CVC5_TIMEOUT_MS = int(os.environ.get('PYVC_CVC5_TIMEOUT_MS', '60000'))
 
 REGISTRY = {}          # name -> (file, qual, props, builder)
@@ -243,10 +244,23 @@ def _worker(key):
     return verify_one(key)
 
 
-def verify_many(keys, procs=16):
+def verify_many(keys, procs=16, budget=None):
+    """one forked process per contract (wall-clock budget + address-space limit: a diverging solver becomes an 'engine-error' record, never a hang)"""
     if not keys: return []
-    with multiprocessing.get_context('fork').Pool(min(procs, len(keys))) as pool:
-        return pool.map(_worker, keys, chunksize=1)
+    from vcheck import pool as vpool
+    budget = budget or int(os.environ.get('PYVC_CONTRACT_BUDGET_S', '400'))
+    res = vpool.run_items(_worker_item, list(keys), budget=budget, procs=procs)
+    out = []
+    for k, r in zip(keys, res):
+        if 'name' in r: out.append(r); continue
+        ent = REGISTRY.get(k, {})
+        out.append(dict(name=k, file=ent.get('file'), qual=ent.get('qual'), props=ent.get('props', []), status='engine-error', obligations=[],
+                        reason=f"contract process: {r.get('status')}: {r.get('why')}", solver_s=0.0, trusted=[], lemmas=[], notes=[], dead_paths=[]))
+    return out
+
+
+def _worker_item(key):
+    return _worker(key)
 
 
 def main(argv):
